@@ -3,6 +3,7 @@
 # (never to /repo itself), run the named checks (quick) against it, remove the worktree.
 # Prints CAUGHT/MISSED per check.  Used only to validate the monitors.
 P="$1"; shift
+case "$P" in revert:*) ;; /*) ;; *) P="$PWD/$P" ;; esac
 W=$(mktemp -d /tmp/mut-XXXXXX); B="$W-bin"
 git -C /repo worktree add -q --detach "$W/repo" HEAD || exit 2
 cleanup() { git -C /repo worktree remove --force "$W/repo" 2>/dev/null; rm -rf "$W" "$B"; }
@@ -13,7 +14,7 @@ case "$P" in
 esac
 (cd "$W/repo" && GOFLAGS=-mod=mod GOPROXY=off GOSUMDB=off GOTOOLCHAIN=local go build ./... ) || { echo "mutant does not compile"; exit 2; }
 for id in "$@"; do
-  out=$(VERIF_ROOT_OVERRIDE= VERIF_REPO="$W/repo" VERIF_BIN="$B" VERIF_SEED="${VERIF_SEED:-1}" "$(dirname "$0")/../run.sh" "$id" "${TIER:-quick}" 2>&1); code=$?
+  out=$(VERIF_OUT="$W/out" VERIF_REPO="$W/repo" VERIF_BIN="$B" VERIF_SEED="${VERIF_SEED:-1}" "$(dirname "$0")/../run.sh" "$id" "${TIER:-quick}" 2>&1); code=$?
   if echo "$out" | grep -q "^VIOLATION property=$id"; then
     echo "CAUGHT $id by $(echo "$out" | grep -E '^  key=' | sed 's/^  key=\([^ ]*\).*/\1/' | sort -u | tr '\n' ' ')"
   else
